@@ -50,6 +50,25 @@ run() {
     C17-m8) extra="C18" ;;
     C18-m7) extra="C16 C15" ;;
     C19-m8) extra="C06" ;;
+    C02-m9) extra="C16" ;;
+    C05-m9) extra="C20" ;;
+    C06-m9) extra="C15 C01" ;;
+    C09-m10) extra="C12 C18" ;;
+    C12-m10|C16-m10) extra="C18" ;;
+    C14-m10) extra="C05 C06" ;;
+    C19-m10) extra="C06 C15" ;;
+    C10-m10|C16-m9) extra="C09" ;;
+    C11-m9) extra="C09 C10" ;;
+    C01-m12) extra="C03" ;;
+    C03-m11|C19-m11) extra="C19 C06" ;;
+    C05-m11) extra="C02 C13" ;;
+    C07-m12) extra="C01" ;;
+    C09-m12) extra="C11" ;;
+    C13-m11|C14-m11) extra="C13 C14" ;;
+    C14-m12) extra="C12 C18" ;;
+    C15-m11) extra="C16" ;;
+    C19-m12) extra="C05" ;;
+    C20-m12) extra="C16" ;;
   esac
   [ -n "${MATRIX_OWN:-}" ] && extra=""   # own check only
   grep -q "^$s check=$own " /tmp/mx/matrix.txt 2>/dev/null && [ -n "${MATRIX_RESUME:-}" ] && return 0
